@@ -237,7 +237,8 @@ int main(int argc, char** argv) {
   } else if (m == "skip_whitespace" || m == "skip_non_whitespace" || m == "skip_word" || m == "skip_whitespace_c" || m == "skip_non_whitespace_c" || m == "skip_word_c") {
     bool cform = m.size() > 2 && m.substr(m.size() - 2) == "_c";
     string base = cform ? m.substr(0, m.size() - 2) : m;
-    ok = sweep(cform ? string("a \n\t") : string("a \n\t\r") + string(1, '\0'), L, [&](const string& s) {
+    // alphabet: a non-blank, the four characters the helpers treat as white space, and the characters isspace() / a locale would add (\v \f, 0xA0)
+    ok = sweep(cform ? string("a \n\t\r\v\f\xA0") : string("a \n\t\r\v\f\xA0") + string(1, '\0'), L > 5 ? 5 : L, [&](const string& s) {
       for (size_t off = 0; off <= s.size(); off++) {
         size_t want = off;
         if (base != "skip_whitespace") while (want < s.size() && !is_ws(s[want])) want++;
